@@ -10,16 +10,16 @@ C = {
  'C02': ("property-based testing: generated programs with injected violations (linear, constant-only, committed-only, gate via guarded hook, cancelling pairs, violated forward-reference constraints without a constant term, near-miss witnesses that satisfy a constraint with one term sign-flipped / dropped / doubled), also through batch_verify (alone and beside the opposite violation) + exhaustive position sweeps of cancelling pairs (adjacent and block-distance pairs over 1100 constraint positions and 64/256 gate positions); oracle = model lists a violated row/gate => verify Err",
          "Generated bad witnesses pushed through the unmodified prover; the model decides which rows/gates the final assignment violates; any acceptance is a soundness failure. Covers enumerated violation classes incl. cancelling pairs that survive a degenerate z^q / y^n weighting.",
          "Trusted: circuit model; false-accept probability 2^-240 ignored; hook verif_overwrite_gate only overwrites the prover's assignment.", "3/C02"),
- 'C08': ("bounded exhaustive grid over (|L|,|R|, gates, fill, scalars, mode) + proptest over structurally arbitrary proof objects, raw and mutated byte strings (+ libFuzzer c08_decode_verify with ASan in the thorough tier); oracle = no panic (catch_unwind), Ok/Err only, decode heap <= 64*len+64KiB",
+ 'C08': ("bounded exhaustive grid over (|L|,|R|, gates, fill, scalars, mode) + proptest over structurally arbitrary proof objects, raw and mutated byte strings, every public decode path (compressed / uncompressed, checked / unchecked, containers: empty, Option, nested, up to 1001 members with a 9000-round member under the heap bound) (+ libFuzzer c08_decode_verify with ASan in the thorough tier); oracle = no panic (catch_unwind), Ok/Err only, decode heap <= 64*len+64KiB",
          "Robustness exploration: exhaustive length grid and generated hostile inputs against decode / verify / batch_verify with a panic and heap oracle.",
          "Trusted: catch_unwind sees every panic in the panic=unwind harness build (debug assertions and overflow checks on); counting global allocator.", "3/C08"),
- 'C11': ("property-based testing: round-trip / size-law / verdict-equality over proofs of generated programs; exhaustive strict-prefix enumeration; crafted single-field invalid encodings at every scalar and point slot, cancelling small-order pairs (+ libFuzzer c11_roundtrip in the thorough tier)",
+ 'C11': ("property-based testing: round-trip / size-law / verdict-equality over proofs of generated programs; exhaustive strict-prefix enumeration; crafted single-field invalid encodings at every scalar and point slot, cancelling small-order pairs, uncompressed mode round trip, k = 12/13 (+ libFuzzer c11_roundtrip in the thorough tier)",
          "Round-trip and rejection checks over generated proofs (k=0..8), exhaustive prefixes for a subset, and crafted invalid encodings (non-canonical scalars, off-curve, invalid flags, small-order offsets) at every position.",
          "Trusted: the mirror layout (11 points, 3 scalars, two length-prefixed lists, 2 scalars); candidates are confirmed invalid independently before asking the proof decoder.", "3/C11"),
  'C12': ("model-based property testing: histories of new/increase_capacity/serialization round-trips compared with a history-free reference derivation; distinctness, subgroup, pinned digests, cross-process digest, 300 / 65 600 parties, views consumed through nth / skip / step_by / count / last",
          "Stateful generated histories against a reference table; all (n,m) views incl. n=0/m=0; pinned digests from the reference revision.",
          "Trusted: the curve's point sampler (shared with the code under test); SHA3/ChaCha crates.", "3/C12"),
- 'C13': ("property-based testing: (v,r) over the full field (boundary classes, limb patterns, random) and arbitrary bases (incl. equal, swapped, identity and small-order-component bases) against an independent double-and-add reference and the homomorphism laws; Prover::commit in runs interleaved with gates and constraints",
+ 'C13': ("property-based testing: (v,r) over the full field (boundary classes, limb patterns, random) and arbitrary bases (incl. equal, swapped, identity, small-order-component and dependent bases B̃ = k·B with openings v = ±k·r) against an independent double-and-add reference and the homomorphism laws; Prover::commit in runs interleaved with gates and constraints",
          "Algebraic laws and a differential reference over generated openings and bases.", "Trusted: point addition/doubling of arkworks.", "3/C13"),
  'C15': ("property-based testing: generated expression trees over every operator impl (incl. term lists of hundreds of terms, running sums of up to 9 100 steps, variables with indices beyond 2^16, constraints spelled before the variables exist with hand-built handles); oracle = own tree evaluation; accept at the reference value, reject at value+delta",
          "Every operator impl is exercised by generated trees whose meaning is decided by an independent evaluator through the prove/verify verdict.",
@@ -31,16 +31,16 @@ C = {
 }
 
 C.update({
- 'C03': ("differential property-based testing: honest / bad-witness / field-edited / shape-edited / identity-crafted (scripted prover RNG) proofs, proofs of a clean-room prover deviating in exactly one term, compensating pair edits; oracle = clean-room unbatched verifier (a)∧(b)∧(c) with explicit generator folding, challenges by position from the real run (own Fiat–Shamir transcript as fallback)",
+ 'C03': ("differential property-based testing: honest / bad-witness / field-edited / shape-edited / identity-crafted (scripted prover RNG) proofs, proofs of a clean-room prover deviating in exactly one term, compensating pair edits; oracle = clean-room unbatched verifier (a)∧(b)∧(c) with explicit generator folding, challenges by position from the real run (own Fiat–Shamir transcript as fallback; unaltered proofs additionally under the challenges of the transcript they were made on)",
          "Two-sided differential against an independent reference verifier over generated statements and attacker-shaped proofs; includes relation-satisfying proofs with an identity mandatory point, the inputs on which a forgotten identity check shows.",
          "Trusted: refverify.rs and the circuit model; challenge-bytes -> scalar conversion replicated from the wire protocol.", "3/C03"),
  'C04': ("exhaustive single-bit flips of accepted proofs + proptest-generated single-field edits / swaps / one-sided list growth / round edits / byte edits / compensating pair edits built from the honest run's coefficients, opposite copies in a batch, verifier holding a generator object that overstates its capacity (+ libFuzzer c04_malleate in the thorough tier); oracle = decode error or verification error or identical object",
          "Mutation of accepted proofs: all bit flips of several proofs per curve, and generated structured edits through the mirror.",
          "Trusted: mirror layout; 'identical object' = re-encodes to the original bytes. Forgery resistance beyond the enumerated edits is a cryptographic assumption.", "3/C04"),
- 'C05': ("metamorphic property-based testing: accepted (program, proof) × one verifier-side statement/context deviation, checked through verify and through batch_verify (alone, beside the honest instance, with the opposite deviation); oracle = circuit model says unsatisfied or the deviation changes bound context => verify Err; cross-verification of same-structure statements",
+ 'C05': ("metamorphic property-based testing: accepted (program, proof) × one verifier-side statement/context deviation (commitments replaced by V+B, V+B̃, random, another V, −V, mirror point, 2V, V+T; extra / missing / reordered commitments; coefficients and constants; labels and application data incl. ~80-byte labels sharing a 64-byte prefix; bases), checked through verify and through batch_verify (alone, beside the honest instance, with the opposite deviation); oracle = circuit model says unsatisfied or the deviation changes bound context => verify Err; cross-verification of same-structure statements",
          "Every deviation class the property names is generated; deviations the committed values still satisfy carry no expectation.",
          "Trusted: circuit model for 'unsatisfied'.", "3/C05"),
- 'C06': ("trace-invariant property testing over the instrumented Merlin log: protocol schedule as ordered required subsequence with full payload encodings, no early/extra challenge, prover ops == verifier ops, returned transcripts agree, fork for the combination weight after the last message, verifier runs on altered proofs absorb the altered elements",
+ 'C06': ("trace-invariant property testing over the instrumented Merlin log: protocol schedule as ordered required subsequence with full payload encodings, no early/extra challenge, application challenge labels passed on exactly, prover ops == verifier ops, returned transcripts agree, fork for the combination weight after the last message, verifier runs on altered proofs absorb the altered elements",
          "Observation of every transcript operation of both roles on generated programs (one/two phase, user data, bad witnesses) against the schedule as data.",
          "Trusted: vendored merlin instrumentation (additive, KAT-checked against the registry crate); schedule.rs as the protocol order.", "3/C06"),
  'C07': ("differential property-based testing: generated batches (mixed sizes/phases/order, invalid members at all positions, cancelling ±d sets, capacity-insufficient members, long batches, clean-room-prover members incl. partially filled / balanced second-phase slots) + distance sweep of a cancelling pair inside batches of up to 520 members, weight-ratio sweep, batches of 1 025 .. 20 011 members with one invalid member; oracle = batch verdict == AND of individual verdicts",
@@ -49,10 +49,10 @@ C.update({
  'C09': ("metamorphic + algebraic property testing with a scripted transcript RNG: RNG construction events, seed laws, draw decoding, per-draw +1 sensitivity probes (bijection draw <-> blinding role; every draw of a fixed 70+66-gate circuit, sampled draws of other large circuits), openings against the model witness, recomputed blinding scalars, lower bound on consumed RNG output, blinding-factor sensitivity of the RNG under bases with known discrete-log relation, circuits at scale (4096+ gates, 1025+ commitments)",
          "Establishes the structure of blinding on generated circuits: each role has its own fresh draw from the transcript-bound RNG; full algebraic opening for padded size 1.",
          "Trusted: instrumented merlin (scripted output only on request); decoding relies on the field sampler's representation and degrades to 'not evaluated'.", "3/C09"),
- 'C10': ("differential property-based testing of the inner-product argument for k = 0..7 (plus fixed n = 256/512/1024 instances; thorough k <= 10): create -> k rounds; verify vs explicit-folding reference and closed form; 21 negative edits incl. non-power-of-two claimed lengths",
+ 'C10': ("differential property-based testing of the inner-product argument for k = 0..7 (plus fixed n = 256/512/1024 instances; thorough k <= 10): create -> k rounds; verify vs explicit-folding reference and closed form; 23 negative edits incl. non-power-of-two claimed lengths, −P and the other point with P's x-coordinate",
          "Generated vectors/factors/bases incl. degenerate rounds; both directions (accept correct openings, reject everything else) against a reference verifier.",
          "Trusted: refverify::ref_ipp; access through the guarded re-export.", "3/C10"),
- 'C14': ("property-based testing + independent big-integer arithmetic: source literals vs compiled constants, agreement of every declaration of the two field moduli (types, Montgomery configurations, curve configuration), Miller–Rabin, curve equation, r·P = O on generated points (own affine arithmetic and compiled), Hasse-interval uniqueness, mul_by_a on generated field elements incl. elements chosen by their Montgomery residue",
+ 'C14': ("property-based testing + independent big-integer arithmetic: source literals vs compiled constants, agreement of every declaration of the two field moduli (types, Montgomery configurations, curve configuration), Miller–Rabin, curve equation, r·P = O on generated points (own affine arithmetic and compiled), Hasse-interval uniqueness, mul_by_a on generated field elements incl. elements chosen by their Montgomery residue, multiples k·P for integers k beyond r",
          "Number-theoretic facts checked with independent big-int code; universally quantified parts (mul_by_a, r·P) by generated inputs.",
          "Trusted: num-bigint; Miller–Rabin error < 4^-76; Hasse bound.", "3/C14"),
  'C18': ("replay of 99 recorded fixtures (verdicts, wrong statements, transcript logs, field layout, generator digests) + differential property-based testing against the frozen reference revision in both directions",
